@@ -310,6 +310,75 @@ theorem classRead_refines {σ : FState} {a : State} (h : Sim σ a) (alias : Bool
   · simp only [hc, if_false]
     exact ⟨trivial, h⟩
 
+def kS0 : Key := ['s']
+def kB0 : Key := ['b']
+
+/-! ## invariants of the mechanism as written: every frame is a dict of its own, `initial_set` is
+never written -/
+
+/-- every materialised frame is a dict object of its own (for an owner: started as a COPY of
+    `initial_set`), never the `initial_set` object -/
+def NoAlias (σ : FState) : Prop := ∀ P c, σ.mapGet P c ≠ some .initCell
+
+theorem NoAlias_mapSet {σ : FState} (h : NoAlias σ) (P : ObjId) (c : ClassId) (f : Frame) :
+    NoAlias (σ.mapSet P c (.obj f)) := by
+  intro P' c'
+  simp only [FState.mapGet, FState.mapSet, get?_set]
+  split
+  · simp
+  · exact h P' c'
+
+theorem NoAlias_finit (init : List (Key × Val)) : NoAlias (finit init) := by
+  intro P c; simp [FState.mapGet, finit, AList.get?]
+
+/-- READ path: keeps the invariant and never touches `initial_set` -/
+theorem pull_inv {σ : FState} (h : NoAlias σ) (P : ObjId) (l : List ClassId) (p : Frame → Pull) :
+    NoAlias (framesPull σ P p l).1 ∧ (framesPull σ P p l).1.initial = σ.initial := by
+  rcases pull_state σ P l p with e | ⟨o, _, _, e⟩
+  · rw [e]; exact ⟨h, rfl⟩
+  · rw [e]; exact ⟨NoAlias_mapSet h _ _ _, rfl⟩
+
+/-- WRITE path as written (`alias = false`): `_base_frame` keeps the invariant and never touches
+    `initial_set` -/
+theorem baseFrame_inv {σ : FState} (h : NoAlias σ) (c : ClassId) (P : ObjId) :
+    NoAlias (baseFrame false σ c P) ∧ (baseFrame false σ c P).initial = σ.initial := by
+  simp only [baseFrame]
+  cases σ.mapGet P c with
+  | some r => exact ⟨h, rfl⟩
+  | none =>
+    by_cases ho : σ.ownsObj c P = true
+    · simp only [ho, if_true, Bool.false_eq_true, if_false]; exact ⟨NoAlias_mapSet h _ _ _, rfl⟩
+    · simp only [ho, if_false]; exact ⟨NoAlias_mapSet h _ _ _, rfl⟩
+
+/-- **`InitialImmutable`**: under the invariant, mutating the dict `map[cls]` refers to never writes
+    the `initial_set` cell (and keeps the invariant) -/
+theorem writeRef_inv {σ : FState} (h : NoAlias σ) (P : ObjId) (c : ClassId) (g : Frame → Frame) :
+    NoAlias (σ.writeRef P c g) ∧ (σ.writeRef P c g).initial = σ.initial := by
+  simp only [FState.writeRef]
+  cases hm : σ.mapGet P c with
+  | none => exact ⟨h, rfl⟩
+  | some r =>
+    cases r with
+    | obj f => exact ⟨NoAlias_mapSet h _ _ _, rfl⟩
+    | initCell => exact absurd hm (h P c)
+
+/-- the whole write `self._base_frame.<mutation>` of the code as written -/
+theorem writeBase_inv {σ : FState} (h : NoAlias σ) (c : ClassId) (P : ObjId) (g : Frame → Frame) :
+    NoAlias (writeBase false σ c P g) ∧ (writeBase false σ c P g).initial = σ.initial := by
+  obtain ⟨h1, e1⟩ := baseFrame_inv h c P
+  obtain ⟨h2, e2⟩ := writeRef_inv h1 P c g
+  exact ⟨h2, e2.trans e1⟩
+
+/-- the counter-model's write path does NOT keep the invariant: the first write through an owner
+    installs the `initial_set` object itself, and the write goes into it -/
+theorem baseFrame_alias_breaks :
+    ¬ NoAlias (baseFrame true (finit [(kS0, .int 1)]) 0 0) ∧
+    (writeBase true (finit [(kS0, .int 1)]) 0 0 (fun f => AList.set f kB0 (.val (.int 9)))).initialOf 0
+      ≠ (finit [(kS0, .int 1)]).initialOf 0 := by
+  constructor
+  · intro h; exact h 0 0 rfl
+  · decide
+
 /-! ## the ALIASING counter-model -/
 
 def kS : Key := ['s']
